@@ -181,7 +181,7 @@ def one_run(cfg, res, tag):
             if not (s.obj <= best + slack(best, h is not None)):
                 viol.append(V("best-point-lost", "soln.obj=%r > objective %r evaluated at call %d of %d [%s]" % (
                     float(s.obj), best, kbest, len(objs), s.msg[:60]), obj=s.obj, best=best, best_call=kbest, ncalls=len(objs),
-                    msg=s.msg, xmin_eval_num=s.xmin_eval_num))
+                    message=s.msg, xmin_eval_num=s.xmin_eval_num))
             if np.isfinite(objs[0]) and not (s.obj <= objs[0] + slack(objs[0], h is not None)):
                 viol.append(V("worse-than-x0", "soln.obj=%r > f(first evaluation)=%r" % (float(s.obj), float(objs[0]))))
         # a later run can only improve on an earlier one
